@@ -22,6 +22,10 @@ namespace std
 #include "world_builder/features/oceanic_plate_models/grains/random_uniform_distribution.cc"
 #include "world_builder/features/mantle_layer_models/grains/random_uniform_distribution.cc"
 #include "world_builder/features/continental_plate_models/composition/random.cc"
+#include "world_builder/features/continental_plate_models/grains/random_uniform_distribution_deflected.cc"
+#include "world_builder/features/oceanic_plate_models/grains/random_uniform_distribution_deflected.cc"
+#include "world_builder/features/mantle_layer_models/grains/random_uniform_distribution_deflected.cc"
+#include "world_builder/features/plume_models/grains/random_uniform_distribution_deflected.cc"
 #include <cmath>
 using namespace H;
 namespace G = WorldBuilder::Features::ContinentalPlateModels::Grains;
@@ -82,6 +86,56 @@ extern "C" void h_c15_grains(unsigned long k, unsigned long check, unsigned long
   if (family == 0) grains_case<WorldBuilder::Features::ContinentalPlateModels::Grains::RandomUniformDistribution>(k, check, ncomp);
   else if (family == 1) grains_case<WorldBuilder::Features::OceanicPlateModels::Grains::RandomUniformDistribution>(k, check, ncomp);
   else grains_case<WorldBuilder::Features::MantleLayerModels::Grains::RandomUniformDistribution>(k, check, ncomp);
+}
+
+// The "deflected" variant (area families and the plume): same size contract, orientation = random rotation restricted by the
+// deflection times the basis matrix.  Only the sizes and the draw count are asserted here.
+template <class M> static void dparse(M *m, World *w, void (M::*)(Parameters &, const std::vector<Point<2>> &)) { const std::vector<Point<2>> coords(3, Point<2>(0, 0, cartesian)); m->parse_entries(w->parameters, coords); m->min_depth_surface.constant_value = true; m->max_depth_surface.constant_value = true; }
+template <class M> static void dparse(M *m, World *w, void (M::*)(Parameters &)) { m->parse_entries(w->parameters); }
+template <class M> static void deflected_case(unsigned long k, unsigned long ncomp)
+{
+  World *w = make_world(0);
+  const unsigned n = unsigned(ncomp);
+  prm.set_len("compositions", n); prm.set_len("grain sizes", n); prm.set_len("normalize grain sizes", n); prm.set_len("deflections", n);
+  prm.set_len("basis rotation matrices", n); prm.set_len("basis Euler angles z-x-z", n);
+  prm.set_options("orientation operation", "replace", "multiply");
+  M *m = new M(w);
+  dparse(m, w, &M::parse_entries);
+  const Point<3> pos(0, 0, 0, cartesian); const Objects::NaturalCoordinate nc(pos, *w->parameters.coordinate_system);
+  const double depth = sym_f64("depth"); const unsigned number = sym_u32("number");
+  for (unsigned i = 0; i < ncomp; ++i) for (unsigned j = 0; j < i; ++j) sym_assume(m->compositions[i] != m->compositions[j]);
+  const unsigned pos_ = sym_u32("position"); sym_assume(pos_ < ncomp);
+  unsigned P = 0; for (unsigned i = 0; i < ncomp; ++i) if (pos_ == i) P = i;
+  sym_assume(depth >= m->min_depth && depth <= m->max_depth && number == m->compositions[P]);
+  WorldBuilder::grains old; old.sizes.resize(k); old.rotation_matrices.resize(k);
+  for (unsigned i = 0; i < k; ++i) { old.sizes[i] = sym_f64("gs"); for (unsigned r = 0; r < 9; ++r) old.rotation_matrices[i][r/3][r%3] = sym_f64("gr"); }
+  verif15::draws = 0;
+  sym_freeze(); sym_allow(&verif15::draws); sym_allow(&verif15::value); sym_allow(&env);
+  const WorldBuilder::grains g = m->M::get_grains(pos, nc, depth, number, old, 0, 1);
+  sym_assert(sym_writes() == 0, "the only pre-existing state a random model may touch is the world's engine");
+  const bool random_sizes = m->grain_sizes[P] < 0;
+  sym_assert(verif15::draws == 3 * k + (random_sizes ? k : 0), "the number of draws depends only on the model state, the composition number and the grain count");
+  sym_assert(g.sizes.size() == k && g.rotation_matrices.size() == k, "grain count is preserved");
+  double total = 0; for (unsigned i = 0; i < k && i < g.sizes.size(); ++i) total += g.sizes[i];
+  if (m->normalize_grain_sizes[P])
+    {
+      double raw = 0; if (!random_sizes) raw = double(k) * m->grain_sizes[P];
+      if (random_sizes) { raw = 0; for (unsigned i = 0; i < k; ++i) raw += verif15::value[3*k + i]; }
+      if (raw > 0) sym_assert(sym_eq(total, 1.0), "normalised grain sizes sum to one");
+    }
+  else if (!random_sizes)
+    for (unsigned i = 0; i < k && i < g.sizes.size(); ++i) sym_assert(sym_eq(g.sizes[i], m->grain_sizes[P]), "fixed grain sizes are returned as given");
+  else
+    for (unsigned i = 0; i < k && i < g.sizes.size(); ++i) sym_assert(g.sizes[i] >= 0 && g.sizes[i] < 1, "random grain sizes lie in [0,1)");
+  sym_reach("end");
+}
+
+extern "C" void h_c15_deflected(unsigned long k, unsigned long family, unsigned long ncomp)
+{
+  if (family == 0) deflected_case<WorldBuilder::Features::ContinentalPlateModels::Grains::RandomUniformDistributionDeflected>(k, ncomp);
+  else if (family == 1) deflected_case<WorldBuilder::Features::OceanicPlateModels::Grains::RandomUniformDistributionDeflected>(k, ncomp);
+  else if (family == 2) deflected_case<WorldBuilder::Features::MantleLayerModels::Grains::RandomUniformDistributionDeflected>(k, ncomp);
+  else deflected_case<WorldBuilder::Features::PlumeModels::Grains::RandomUniformDistributionDeflected>(k, ncomp);
 }
 
 extern "C" void h_c15_composition(void)
